@@ -122,6 +122,18 @@ include Coq__1
 let eqb b1 b2 =
   if b1 then b2 else if b2 then false else true
 
+module Nat =
+ struct
+  (** val leb : nat -> nat -> bool **)
+
+  let rec leb n0 m0 =
+    match n0 with
+    | O -> true
+    | S n' -> (match m0 with
+               | O -> false
+               | S m' -> leb n' m')
+ end
+
 type positive =
 | XI of positive
 | XO of positive
@@ -423,6 +435,12 @@ let rec existsb f = function
 let rec forallb f = function
 | [] -> true
 | a :: l0 -> (&&) (f a) (forallb f l0)
+
+(** val filter : ('a1 -> bool) -> 'a1 list -> 'a1 list **)
+
+let rec filter f = function
+| [] -> []
+| x :: l0 -> if f x then x :: (filter f l0) else filter f l0
 
 (** val seq : nat -> nat -> nat list **)
 
@@ -3329,3 +3347,201 @@ let chk_C09_root b =
 
 let chk_C09 o =
   forallb chk_C09_root o.o_fns
+
+type tree =
+| Leaf of expr_val
+| Node of tree * binop * tree
+
+(** val insert : tree -> binop -> expr_val -> tree **)
+
+let rec insert t o v =
+  match t with
+  | Leaf _ -> Node (t, o, (Leaf v))
+  | Node (l, o', r) ->
+    if N.ltb (prio o') (prio o)
+    then Node (l, o', (insert r o v))
+    else Node (t, o, (Leaf v))
+
+(** val bracket : expr_val -> links -> tree **)
+
+let bracket v rest =
+  fold_left (fun t ov -> insert t (fst ov) (snd ov)) rest (Leaf v)
+
+type ttree =
+| TLeaf of n
+| TNode of ttree * binop * ttree
+
+(** val binop_eqb : binop -> binop -> bool **)
+
+let binop_eqb a b =
+  eqb1 (binop_name a) (binop_name b)
+
+(** val ttree_eqb : ttree -> ttree -> bool **)
+
+let rec ttree_eqb a b =
+  match a with
+  | TLeaf x -> (match b with
+                | TLeaf y -> N.eqb x y
+                | TNode (_, _, _) -> false)
+  | TNode (l, o, r) ->
+    (match b with
+     | TLeaf _ -> false
+     | TNode (l', o', r') ->
+       (&&) ((&&) (ttree_eqb l l') (binop_eqb o o')) (ttree_eqb r r'))
+
+(** val ref_tree_of : nat -> tree -> ttree option **)
+
+let rec ref_tree_of fuel t =
+  match fuel with
+  | O -> None
+  | S f ->
+    (match t with
+     | Leaf v0 ->
+       (match v0 with
+        | EVSub e -> let Expr (v, rest) = e in ref_tree_of f (bracket v rest)
+        | EVExt (_, tag) -> Some (TLeaf tag)
+        | _ -> None)
+     | Node (l, o, r) ->
+       (match ref_tree_of f l with
+        | Some a ->
+          (match ref_tree_of f r with
+           | Some b -> Some (TNode (a, o, b))
+           | None -> None)
+        | None -> None))
+
+(** val ref_of_expr : expr -> ttree option **)
+
+let ref_of_expr e = match e with
+| Expr (v, rest) -> ref_tree_of (S (S (size_expr e))) (bracket v rest)
+
+(** val env_lookup : n -> (n * ttree) list -> ttree option **)
+
+let rec env_lookup n0 = function
+| [] -> None
+| p :: env' ->
+  let (m0, t) = p in if N.eqb n0 m0 then Some t else env_lookup n0 env'
+
+(** val operand_tree : eres -> (n * ttree) list -> ttree option **)
+
+let operand_tree e env =
+  match e.r_val with
+  | RReg n0 -> env_lookup n0 env
+  | RPrim _ -> None
+
+(** val let_trees : instr list -> (n * ttree) list -> ttree option list **)
+
+let rec let_trees code env =
+  match code with
+  | [] -> []
+  | i :: c ->
+    (match i with
+     | IExprOp (o, l, r, reg) ->
+       (match operand_tree l env with
+        | Some a ->
+          (match operand_tree r env with
+           | Some b -> let_trees c ((reg, (TNode (a, o, b))) :: env)
+           | None -> let_trees c env)
+        | None -> let_trees c env)
+     | ILet (_, e) -> (operand_tree e env) :: (let_trees c env)
+     | IExt (tag, r) -> let_trees c ((r, (TLeaf tag)) :: env)
+     | _ -> let_trees c env)
+
+(** val lets_of_stmt : stmt -> expr list **)
+
+let rec lets_of_stmt = function
+| SLet (_, _, _, e) -> e :: []
+| SIf i -> lets_of_if i
+| SLoop body ->
+  let rec go = function
+  | [] -> []
+  | x :: l' -> app (lets_of_stmt x) (go l')
+  in go body
+| _ -> []
+
+(** val lets_of_if : ifstmt -> expr list **)
+
+and lets_of_if = function
+| IfS (_, body, els, elif) ->
+  app (lets_of_ifbody body)
+    (app (match els with
+          | Some b -> lets_of_ifbody b
+          | None -> [])
+      (match elif with
+       | Some i' -> lets_of_if i'
+       | None -> []))
+
+(** val lets_of_ifbody : ifbody -> expr list **)
+
+and lets_of_ifbody = function
+| IBIf ss ->
+  let rec go = function
+  | [] -> []
+  | x :: l' -> app (lets_of_stmt x) (go l')
+  in go ss
+| IBLoop ss ->
+  let rec go = function
+  | [] -> []
+  | x :: l' -> app (lets_of_stmt x) (go l')
+  in go ss
+
+(** val lets_of_fn : fn_decl -> expr list **)
+
+let lets_of_fn f =
+  flat_map lets_of_stmt f.fn_body
+
+(** val match_lets : expr list -> ttree option list -> bool **)
+
+let rec match_lets src got =
+  match src with
+  | [] -> (match got with
+           | [] -> true
+           | _ :: _ -> false)
+  | e :: src' ->
+    (match got with
+     | [] -> false
+     | g :: got' ->
+       (&&)
+         (match ref_of_expr e with
+          | Some t -> (match g with
+                       | Some t' -> ttree_eqb t t'
+                       | None -> false)
+          | None -> true) (match_lets src' got'))
+
+(** val chk_C07_fn : fn_decl -> block -> bool **)
+
+let chk_C07_fn f root =
+  match_lets (lets_of_fn f) (let_trees root.b_ctx [])
+
+(** val chk_C07_fns : fn_decl list -> block list -> bool **)
+
+let rec chk_C07_fns fs roots =
+  match fs with
+  | [] -> (match roots with
+           | [] -> true
+           | _ :: _ -> false)
+  | f :: fs' ->
+    (match roots with
+     | [] -> false
+     | r :: roots' -> (&&) (chk_C07_fn f r) (chk_C07_fns fs' roots'))
+
+(** val chk_C07 : program -> output -> bool **)
+
+let chk_C07 p o =
+  match o.o_errors with
+  | [] -> chk_C07_fns (functions_of p) o.o_fns
+  | _ :: _ -> true
+
+(** val ttree_ops : ttree -> nat **)
+
+let rec ttree_ops = function
+| TLeaf _ -> O
+| TNode (l, _, r) -> S (add (ttree_ops l) (ttree_ops r))
+
+(** val judged_C07 : program -> nat **)
+
+let judged_C07 p =
+  length
+    (filter (fun e ->
+      match ref_of_expr e with
+      | Some t -> Nat.leb (S (S O)) (ttree_ops t)
+      | None -> false) (flat_map lets_of_fn (functions_of p)))
